@@ -34,7 +34,7 @@ class Unit:
                  abstract=None, module_consts=None, safety=('index', 'div'), trusted=False, short=None,
                  doc='', while_bound=6, fresh_attr=None, canary=None, timeout_ms=8000, defaults=None,
                  exec_cls=None, self_class=None, cases=None, store='ite', sum_split=False, native_obj=None,
-                 native_call=None, variant=None, yields=None, fresh_result=False):
+                 native_call=None, variant=None, yields=None, fresh_result=False, setup=None):
         self.props = [props] if isinstance(props, str) else list(props)
         self.qualname = qualname
         # several units may put the same function under contract (e.g. Contribution.prepare once per subclass whose
@@ -76,6 +76,9 @@ class Unit:
         # the caller owns the result: it is a new object (sym: allocated during the call; native: the result of one call
         # is modified in place and the call repeated -- the contract must hold again)
         self.fresh_result = fresh_result
+        # scenario units: setup(ex, st, c) runs REAL code of the repository on the initial state before the function under
+        # contract (e.g. the constructor, symbolically, to obtain the object the method is then called on)
+        self.setup = setup
         if native is None and native_obj is not None:
             self.native = lambda c, p: native_call(c, native_obj(c, p), p)
         self._view0 = None
@@ -247,6 +250,11 @@ def build_obligations(unit, c):
     for n in names:
         if n not in st.env:
             raise EngineError('unit %s: params() does not supply %s' % (unit.short, n))
+    if unit.setup is not None:
+        ex.mi = mi
+        ex.cur_class = cls.name if cls is not None else None
+        ex.fn_imports = dict(mi.imports)
+        unit.setup(ex, st, c)
     outs = ex.run(mi, fn, cls, st, None)
     spec = unit.raises_spec(c, v0) if unit.raises_spec else {}
     import ast as _ast
